@@ -322,7 +322,7 @@ func (pa *Path) boolOnPath(v ssa.Value, at int) (bool, bool) {
 	return false, false
 }
 
-const maxPaths = 4096
+const maxPaths = 65536
 
 // EnumPaths enumerates the acyclic paths from the start block. A block is not
 // entered twice on one path; an edge to a block already on the path ends the
